@@ -24,6 +24,7 @@ def verify(d):
         rc, out = run("git -C /repo worktree add -q --detach %s %s" % (wt, os.environ.get("SEED_BASE", "HEAD")), "/")
         if rc: return {"ok": False, "why": "worktree: " + out}
         demos = glob.glob(os.path.join(d, "*_test.go"))
+        os.makedirs(os.path.join(wt, pkgdir), exist_ok=True)
         for f in demos: shutil.copy(f, os.path.join(wt, pkgdir, os.path.basename(f)))
         rc, out = run(res["run"], wt)
         res["demo_unmodified"] = "pass" if rc == 0 else "FAIL"
@@ -43,6 +44,9 @@ def verify(d):
         run("git -C /repo worktree remove --force %s" % wt, "/")
         shutil.rmtree(wt, ignore_errors=True)
 for d in sys.argv[1:]:
-    r = verify(d)
+    try:
+        r = verify(d)
+    except Exception as e:
+        r = {"ok": False, "why": "verify_seed: %r" % e}
     json.dump(r, open(os.path.join(d, "VERIFY.json"), "w"), indent=1)
     print(d, "OK" if r.get("ok") else "NOT-OK", {k: v for k, v in r.items() if k in ("demo_unmodified", "build", "demo_patched", "suite_patched", "why")})
